@@ -325,13 +325,19 @@ PROPS = {
     },
     "C02": {
         "module": "ShapeVerif.Props.C02",
-        "extra_modules": ["ShapeVerif.Props.TextLevel"],
-        "theorems": ["ShapeVerif.subset_sound", "ShapeVerif.superset_sound_text"],
+        "extra_modules": ["ShapeVerif.Props.TextLevel", "ShapeVerif.Props.Subtypes"],
+        "theorems": ["ShapeVerif.subset_sound", "ShapeVerif.superset_sound_text", "ShapeVerif.hasKind_sound",
+                     "ShapeVerif.isArrayOf_sound", "ShapeVerif.isObjectOf_sound", "ShapeVerif.isOneOfT_null",
+                     "ShapeVerif.isOneOfT_bool", "ShapeVerif.isOneOfT_number", "ShapeVerif.isOneOfT_string",
+                     "ShapeVerif.isOneOfT_optBool", "ShapeVerif.isOneOfT_optNumber", "ShapeVerif.isOneOfT_optString"],
         "statements": {
             "subset_sound": "∀ a b, b.wf → isSubset a b = true → ∀ d, admits a d → admits b d",
+            "hasKind_sound": "a shape with the constructor and flag a typed query names admits only documents of that JSON kind, and null only when the query names an optional type (or Null)",
+            "isArrayOf_sound": "is_array_of::<T>() = true → every element of every admitted array is of kind T (or null when T is Optional<·>); isObjectOf_sound: the same for the member a key names",
+            "isOneOfT_*": "the generic model of IsOneOf<T> (all 15 type arguments) is, instance by instance, the helper that is_subset calls and subset_sound reasons about",
         },
         "partial": ["text level: superset_sound_text — is_superset(s, t) = true or is_superset_checked(s, t) = Ok(true) implies t is a JSON text within the depth bound whose document s admits (for conflict-free documents; D3 is the complement)"],
-        "rule": "subset on all ordered pairs of the small-scope universe + random related pairs (widenings, merges, mutations); for every pair the code answers true, witness documents drawn from meaning(a) are checked against admits(b); (shape,text) pairs from inferred histories for is_superset / is_superset_checked, each true answer checked with admits. Non-trivial = answer true with a container on either side.",
+        "rule": "subset on all ordered pairs of the small-scope universe + random related pairs (widenings, merges, mutations); for every pair the code answers true, witness documents drawn from meaning(a) are checked against admits(b); (shape,text) pairs from inferred histories for is_superset / is_superset_checked, each true answer checked with admits; the 58 typed queries of value/subtypes.rs (IsArrayOf / IsOneOf / IsObjectOf / IsTupleOf for every type argument that has an impl, reached through a feature-guarded hook because the module is private) and the public is_tuple_of(&[..]) on every shape of the small-scope universe, present and absent keys, inside and outside positions: compared with the model exactly. Non-trivial = answer true with a container on either side.",
         "assumptions": [],
         "level_text": "subset_sound is a Lean theorem for every pair of shapes (any constructor, both flags, any nesting): isSubset a b = true implies every document admitted by a is admitted by b, with `admits` an independent reference semantics. The consequence for is_superset on texts is checked by an oracle on the real code (admits on every true answer) and has one recorded known finding (D3 class).",
         "level_note": "Trusted: Lean kernel; model of subset.rs/subtypes.rs tied by differential testing; reference semantics Ref/Sem.lean. Text-level clause (is_superset) is not yet a theorem: it depends on the parser model and on inference soundness, which fails on the D3 class (known finding).",
